@@ -52,6 +52,14 @@ func (e *verif17Env) completeTorrent() bool {
 func (e *verif17Env) wbHooks() {
 	verif17Noticed = map[*dispatch.Dispatcher]bool{}
 	verif17WindowRemovals = 0
+	// A completed torrent may go on seeding for ever: the recurring tick must
+	// not be what finally answers a caller. Right before the final tick a peer
+	// is served a piece, so the torrent is not an idle seeder.
+	e.hookFinalTick = func() {
+		if c := e.ctrl(); c != nil && c.dispatcher.Complete() {
+			dispatch.Verif17ServePiece(c.dispatcher)
+		}
+	}
 	e.hookBefore = func(ev event) func() {
 		// window of FINDINGS.md: a completed torrent whose waiters have not been
 		// notified yet and whose completion notice is still waiting to be received
@@ -97,6 +105,12 @@ func (e *verif17Env) run() {
 	verif.Option("sched_fixed", 1)
 	withD2 := verif.Choice("second_download", 2) == 1
 	x := verif.Choice("other_event", 4)
+	if verif.Choice("torrent_opened_by_remote_peer_first", 2) == 1 {
+		// the control already exists because a remote peer connected for this
+		// torrent earlier (state.addIncomingConn -> addTorrent(.., false))
+		_, err := e.st.addTorrent("ns", e.arch.t, false)
+		verif.Assert("add-torrent", err == nil)
+	}
 	e.startDownload(0)
 	if withD2 {
 		e.startDownload(1)
